@@ -1,6 +1,7 @@
 package governance
 
 import (
+	"encoding/hex"
 	"encoding/json"
 	"strings"
 
@@ -59,6 +60,12 @@ func (c CreateProposal) Validate(ctx *action.Context, signedTx action.SignedTx) 
 
 	//Check if Proposal ID is valid
 	if err = createProposal.ProposalID.Err(); err != nil {
+		return false, governance.ErrInvalidProposalId
+	}
+	//A new Proposal ID must be the hex encoded hash the clients generate: the proposal, vote and fund stores
+	//build their keys around the id, so an id containing the key separator "_" or starting with the range
+	//end "~" gives records that the store iterations can not find or parse
+	if _, err = hex.DecodeString(string(createProposal.ProposalID)); err != nil {
 		return false, governance.ErrInvalidProposalId
 	}
 
